@@ -108,7 +108,12 @@ def run(ctx):
             continue
         ty = ob.get("const_types", {}).get("K")
         if ty != TYMAP[r["ty"]]:
-            ctx.fail("const-type-differs", {"e": src_e, "spec": r["ty"], "real": ty})
+            ctx.fail("const-type-differs", {"e": src_e, "spec": r["ty"], "real": ty},
+                     "the type the const evaluator records differs from the type of the same expression in a function body")
+        if r["status"] == "typeonly":
+            stats["type_only_cases"] = stats.get("type_only_cases", 0) + 1
+            distinct.add(src_e)
+            continue
         v = ob.get("consts", {}).get("K")
         if v is not None:
             sv = r["val"][0]
